@@ -11,6 +11,7 @@ struct Finding
 {	std::string sig ;			// property.clause|container|codec|route|fault|disc
 	std::string detail ;
 	int task = 0, op = 0 ;
+	J plan ;						// explicit plan reproducing this finding when it differs from the generated one (enumeration profiles)
 } ;
 
 struct Verdict
